@@ -14,6 +14,9 @@ def _eq(a, b):
     r = (a == b)
     return r
 
+SET_ORDER = [None]
+
+
 class SymSet:
     """insertion-ordered set without hashing; equality may fork"""
     def __init__(self, items=()):
@@ -44,7 +47,10 @@ class SymSet:
     def pop(self): return self._items.pop()
     def clear(self): self._items.clear()
     def copy(self): return SymSet(self._items)
-    def __iter__(self): return iter(list(self._items))
+    def __iter__(self):
+        items = list(self._items)
+        if SET_ORDER[0] is not None and len(items) > 1: items = SET_ORDER[0](items)      # the iteration order of a set is the environment's choice: a harness may make it adversarial
+        return iter(items)
     def __len__(self): return len(self._items)
     def __bool__(self): return bool(self._items)
     def union(self, *o):
